@@ -41,9 +41,9 @@ PROPS = {
         "corr": ["Corr/RunVm"],
         "engines": [
             {"engine": "vm", "name": "vm_release", "profile": "release", "quick": 900, "thorough": 25000,
-             "args": ["--families", "single,prog,malformed,control,compute,state,access,crypto", "--evals", "c05_mismatches,c05_spec_failures", "--gas", "--sweep"]},
+             "args": ["--families", "limits,limits,single,single,prog,malformed,control,compute,state,access,crypto", "--evals", "c05_mismatches,c05_spec_failures", "--gas", "--sweep"]},
             {"engine": "vm", "name": "vm_checked", "profile": "relchk", "quick": 900, "thorough": 25000,
-             "args": ["--families", "single,prog,malformed,control,compute,state,access,crypto", "--evals", "c05_mismatches,c05_spec_failures", "--gas", "--sweep"]},
+             "args": ["--families", "limits,limits,single,single,prog,malformed,control,compute,state,access,crypto", "--evals", "c05_mismatches,c05_spec_failures", "--gas", "--sweep"]},
         ],
         "rule": "all VM case families (single data op on boundary operands and stack/memory shapes at the limits, structured and "
                 "malformed programs, control flow, compute, state reads, access, crypto) with cost/limit grids and limit sweeps "
@@ -67,7 +67,7 @@ PROPS = {
         "properties": "Properties/C08",
         "corr": ["Corr/RunVm"],
         "engines": [{"engine": "vm", "quick": 1600, "thorough": 60000,
-                     "args": ["--families", "single,single,single,prog", "--evals", "vm_mismatches,c08_spec_failures"]}],
+                     "args": ["--families", "single,single,single,limits,prog", "--evals", "vm_mismatches,c08_spec_failures"]}],
         "rule": "every Stack/Pred/Alu/Memory/ParentMemory op on operands from the boundary pool and structurally valid operands, "
                 "stack shapes empty/short/at the 4096 limit, memory shapes empty/short/at the 10240 limit, parent memory present/absent; "
                 "plus short programs of data-op snippets; single-op cases are checked against the declarative op_spec directly",
